@@ -319,6 +319,21 @@ def run(ctx):
             if len(m.bytes) > 400:
                 continue
             pool.append(m)
+        # one message whose descriptor list has a 221YYY range (an undefined descriptor substituted INSIDE the range must be
+        # reported like anywhere else) and one with replications around the substituted positions
+        B33, D33 = cases.tables(33)
+        special = [[1001, 221002, 12001, 1002, 2001], [1001, 221003, 20011, 12001, 5001, 1002],
+                   [102002, 1001, 12001, 101000, 31001, 2001], [1001, 103000, 31001, 12001, 221001, 12004, 1002]]
+        for si in (ctx.shard % len(special), (ctx.shard + 1) % len(special)):
+            try:
+                k += 1
+                sm = R.build_message(special[si], B33, D33, R.Policy(rng), rng.choice([1, 2]), bool(si % 2), rng.choice([3, 4]),
+                                     dict(master_table_version=33, update_sequence_number=k % 256, data_category=si))
+                dec.process(sm.bytes)
+                pool.append(sm)
+                ctx.count('pool_messages_with_221_or_replication')
+            except Exception:
+                pass
         # the decoder object is reused throughout; it has also served lenient decodes
         # (ignore_value_expectation=True applies to THAT call only)
         for m in pool[:3]:
